@@ -247,6 +247,12 @@ func c10(ctx *Ctx) (*Outcome, error) {
 		c.Pair = &sem.Case{Root: twin, Sig: c.Sig}
 		cases = append(cases, c)
 	}
+	// same reference text in two documents of one run, resolving to different definitions
+	for i := 0; i < ctx.N(12, 90); i++ {
+		if c := sameRefTextTwinCase(ctx, i, sg.NewRng(ctx.Seed, fmt.Sprintf("C10-twin-%d", i)), 1<<30); c != nil {
+			cases = append(cases, c)
+		}
+	}
 	nrec := ctx.N(12, 60)
 	for i := 0; i < nrec; i++ {
 		cases = append(cases, recursiveCase(sg.NewRng(ctx.Seed, fmt.Sprintf("C10-rec-%d", i)), i))
@@ -260,67 +266,69 @@ func c10(ctx *Ctx) (*Outcome, error) {
 	}
 	cfg := &sem.Config{Prop: "C10", Tier: ctx.Tier, Seed: ctx.Seed, Cases: cases, Classes: docgen.Classes{"type": true, "required": true, "bound": true, "string": true, "items": true, "enum": true, "delopt": true}, Valid: 4, PerSite: 2, MaxDocs: 70,
 		Env: ctx.Env, Values: true}
-	rep, err := sem.Run(cfg)
-	if err != nil {
-		return nil, err
-	}
 	// a reference form that the generator refuses while it accepts the inlined twin is not transparent either
 	var gviol []Viol
 	refusedRef := 0
-	for _, c := range cases {
-		p, q := sem.ProgramOf(c), sem.ProgramOf(c.Pair)
-		if p == nil || q == nil || c.Witness != "" {
-			continue
-		}
-		if p.Proc.Exit != 0 && q.Proc.Exit == 0 && !p.Proc.TimedOut {
-			refusedRef++
-			if len(gviol) < 4 {
-				rp := filepath.Join(evid.ReplayDir(), fmt.Sprintf("C10-refused-%d", len(gviol)))
-				_ = os.RemoveAll(rp)
-				_ = osexec("cp", "-r", p.Dir, rp)
-				b, _ := json.MarshalIndent(map[string]any{"property": "C10", "kind": "reference form refused, inlined twin accepted", "argv": p.Args, "inputs": p.Inputs, "cwd": p.Cwd, "stderr": string(p.Proc.Stderr)}, "", " ")
-				_ = os.WriteFile(filepath.Join(rp, "verif-summary.json"), b, 0o644)
-				gviol = append(gviol, Viol{Replay: rp, Summary: fmt.Sprintf("the reference form is refused (%s) while its inlined twin is generated\n args=%v inputs=%v cwd=%q", trunc(firstFailed(p), 300), p.Args, p.Inputs, p.Cwd)})
-			}
-		}
-	}
-	// census: all referrers of one definition share one named type (same-file cases)
 	shared, sharedBad := 0, 0
 	var cviol []Viol
-	for _, c := range cases {
-		p := sem.ProgramOf(c)
-		if p == nil || !p.Usable() || !strings.HasPrefix(c.Sig, "same-file") {
-			continue
-		}
-		fields := gocheck.StructFields(p.Report.Fset, p.Report.File, "RootJson")
-		byTarget := map[*sg.Schema][]string{}
-		for _, pr := range c.Root.Props {
-			if pr.S.Ref == "" || pr.S.Target == nil {
+	cfg.AfterBatch = func(cases []*sem.Case) {
+		for _, c := range cases {
+			p, q := sem.ProgramOf(c), sem.ProgramOf(c.Pair)
+			if p == nil || q == nil || c.Witness != "" {
 				continue
 			}
-			for _, f := range fields {
-				if strings.Contains(f.Tag, `json:"`+pr.Name+`"`) || strings.Contains(f.Tag, `json:"`+pr.Name+`,`) {
-					byTarget[pr.S.Target] = append(byTarget[pr.S.Target], strings.TrimPrefix(f.Type, "*"))
+			if p.Proc.Exit != 0 && q.Proc.Exit == 0 && !p.Proc.TimedOut {
+				refusedRef++
+				if len(gviol) < 4 {
+					rp := filepath.Join(evid.ReplayDir(), fmt.Sprintf("C10-refused-%d", len(gviol)))
+					_ = os.RemoveAll(rp)
+					_ = osexec("cp", "-r", p.Dir, rp)
+					b, _ := json.MarshalIndent(map[string]any{"property": "C10", "kind": "reference form refused, inlined twin accepted", "argv": p.Args, "inputs": p.Inputs, "cwd": p.Cwd, "stderr": string(p.Proc.Stderr)}, "", " ")
+					_ = os.WriteFile(filepath.Join(rp, "verif-summary.json"), b, 0o644)
+					gviol = append(gviol, Viol{Replay: rp, Summary: fmt.Sprintf("the reference form is refused (%s) while its inlined twin is generated\n args=%v inputs=%v cwd=%q", trunc(firstFailed(p), 300), p.Args, p.Inputs, p.Cwd)})
 				}
 			}
 		}
-		for _, types := range byTarget {
-			if len(types) < 2 {
+		// census: all referrers of one definition share one named type (same-file cases)
+		for _, c := range cases {
+			p := sem.ProgramOf(c)
+			if p == nil || !p.Usable() || !strings.HasPrefix(c.Sig, "same-file") {
 				continue
 			}
-			shared++
-			for _, t := range types[1:] {
-				if t != types[0] {
-					sharedBad++
-					if len(cviol) < 4 {
-						b, _ := json.MarshalIndent(map[string]any{"property": "C10", "kind": "type-sharing census", "field_types": types, "schema": json.RawMessage(jsonx.Marshal(c.Root.ToJSON())), "emitted": string(p.Src)}, "", " ")
-						path := filepath.Join(evid.ReplayDir(), fmt.Sprintf("C10-census-%d.json", len(cviol)))
-						_ = os.WriteFile(path, b, 0o644)
-						cviol = append(cviol, Viol{Replay: path, Summary: fmt.Sprintf("referrers of one definition use different Go types: %v", types)})
+			fields := gocheck.StructFields(p.Report.Fset, p.Report.File, "RootJson")
+			byTarget := map[*sg.Schema][]string{}
+			for _, pr := range c.Root.Props {
+				if pr.S.Ref == "" || pr.S.Target == nil {
+					continue
+				}
+				for _, f := range fields {
+					if strings.Contains(f.Tag, `json:"`+pr.Name+`"`) || strings.Contains(f.Tag, `json:"`+pr.Name+`,`) {
+						byTarget[pr.S.Target] = append(byTarget[pr.S.Target], strings.TrimPrefix(f.Type, "*"))
+					}
+				}
+			}
+			for _, types := range byTarget {
+				if len(types) < 2 {
+					continue
+				}
+				shared++
+				for _, t := range types[1:] {
+					if t != types[0] {
+						sharedBad++
+						if len(cviol) < 4 {
+							b, _ := json.MarshalIndent(map[string]any{"property": "C10", "kind": "type-sharing census", "field_types": types, "schema": json.RawMessage(jsonx.Marshal(c.Root.ToJSON())), "emitted": string(p.Src)}, "", " ")
+							path := filepath.Join(evid.ReplayDir(), fmt.Sprintf("C10-census-%d.json", len(cviol)))
+							_ = os.WriteFile(path, b, 0o644)
+							cviol = append(cviol, Viol{Replay: path, Summary: fmt.Sprintf("referrers of one definition use different Go types: %v", types)})
+						}
 					}
 				}
 			}
 		}
+	}
+	rep, err := sem.Run(cfg)
+	if err != nil {
+		return nil, err
 	}
 	o := FromSem(ctx, rep, "relational: each ref-heavy schema is generated in REF form (definitions in the same file, or factored out into sibling .json/.yaml files over a random directory layout with ./, file:// and extension-less reference spellings, run from a random working directory or by absolute path) and as its INLINED twin; both compiled programs run on the same valid and single-fault documents and each must give the model's verdict and decoded value (hence the same as each other); go/ast census: all referrers of one definition share one named type; recursion: linked-list, tree and mutual recursion graphs must generate within the CPU limit and documents nested 1..64 deep with a bound or type fault only at the deepest level must get the model's verdict",
 		4000, commonAssumptions)
